@@ -493,7 +493,11 @@ fn exec_program<F: Fl + SerdeBound>(case: &Value, skip_roundtrip: bool) -> Vec<V
                 "add_success" | "add_failure" | "extend_bool" | "extend_if" | "from_iter_bool" | "new_counts" => {
                     let bools: Vec<bool> = xs.iter().map(|&c| c == 1).collect();
                     if a == "from_iter_bool" {
-                        regs[r] = Reg::Prop(proportion::Stats::from_iter(bools.iter().cloned()));
+                        // every other program collects from an iterator whose size hint is not exact (a filter)
+                        regs[r] = Reg::Prop(if k % 2 == 0 { proportion::Stats::from_iter(bools.iter().cloned()) } else {
+                            bools.iter().cloned().enumerate().flat_map(|(i, b)| [(i, b, true), (i, b, false)])
+                                .filter(|t| t.2).map(|t| t.1).collect::<proportion::Stats>()
+                        });
                         books[r] = (xs.clone(), vec![]);
                     } else if a == "new_counts" {
                         regs[r] = Reg::Prop(proportion::Stats::new(v as usize, w as usize));
